@@ -190,3 +190,45 @@ CHECKS["C14"] = {
     "assumptions": COMMON_ASSUME + ["over-aligned element types (alignment > 16) are outside the enumerated alphabet"],
     "deadline": {"quick": 600, "thorough": 2400},
 }
+
+
+def tsmper_check(mode, rule):
+    return {
+        "builds": [{"name": "tsmper_driver", "sources": ["drivers/tsmper_driver.cpp"], "flags": ["-O1", "-g", "-fno-access-control", "-DVF_" + mode]}],
+        "runs": [{"driver": "tsmper_driver", "args": ["--mode", mode], "slices": 64}],
+        "level": "exploration",
+        "replayable": False,
+        "rule": rule,
+        "assumptions": COMMON_ASSUME,
+        "deadline": {"quick": 600, "thorough": 2400},
+    }
+
+
+CHECKS["C10"] = tsmper_check(
+    "C10",
+    "every occupancy pattern (all subsets of small trees, subsets of <= k leaves beyond) x motifs including particles on the periodic "
+    "faces and the upper box corner x dyadic boxes (unit, per-dimension widths, shifted) x extra levels -1..3 (5 in thorough) x block "
+    "sizes x grouping modes x {single tree + TbfAlgorithmPeriodicTopTree, target/source + TbfAlgorithmPeriodicTopTreeTsm with sources "
+    "on the same and on the mirrored leaves}, run through the documented four-call sequence; oracle per ordered pair: multiplicity = "
+    "number of images in getRepetitionsIntervals() (minus the self term), which must equal getNbTotalRepetitions(), and the exact "
+    "potential = closed-form sum of |x_i - x_j - nW|^2 over that interval, plus the per-call predicates (offset codes modulo the box). "
+    "Distinct by construction; non-trivial = at least one particle.")
+
+
+CHECKS["C09"] = {
+    "builds": tsmper_check("C09", "")["builds"] + sched_builds(["-DVF_EXEC_OMP_TSM"], prefix="sdt"),
+    "runs": [{"driver": "tsmper_driver", "args": ["--mode", "C09"], "slices": 64, "tag": "seq"},
+             {"driver": "sdt_fast", "args": ["--mode", "C09"], "slices": 48, "tag": "fast"},
+             {"driver": "sdt_trace", "args": ["--mode", "C09"], "slices": 48, "tag": "trace"}],
+    "level": "model_checking",
+    "replayable": False,
+    "rule": "(a) sequential target/source executor: every ordered pair (source occupancy pattern, target occupancy pattern) of small "
+            "trees (all 255 x 255 for 1-D height 4 and 3-D height 2, subsets of <= k leaves on each side beyond) x motifs (identical "
+            "positions on both sides included) x block sizes x grouping modes; oracle: each target has exactly one contribution per "
+            "source (count channel) with the exact potential, no P2P/P2PInner call, source particle buffers byte-identical, both trees "
+            "satisfy the construction and structure invariants, per-call predicates. (b) OpenMP target/source executor under the E3 "
+            "explorer exactly as C03 (full state space of the small driver graphs, named schedules on mid-size trees, race and "
+            "lifetime oracles in the trace build). states/transitions are those of (b); evaluations = executions of (a) + (b).",
+    "assumptions": MC_ASSUME,
+    "deadline": {"quick": 600, "thorough": 3000},
+}
